@@ -446,7 +446,16 @@ void Monitor::on_write(unsigned char byte, bool accepted)
                         mid |= c.off > 1;
                 bool nlish = byte == '\n' || byte == '\r';
                 std::string tag = it.tag, rule = "unit-content-mismatch";
-                if (it.kind == Item::HOLDWAIT) {
+                // only the style of a newline differs (CR missing or superfluous) in a command unit
+                bool style_only = nlish && prev[0].prod == 0;
+                for (auto &c : prev) {
+                        char e = cand_alts[c.prod][c.alt][c.off];
+                        style_only &= (e == '\r' || e == '\n') && e != (char)byte;
+                }
+                if (style_only) {
+                        tag = "C20";
+                        rule = "line-ending-does-not-mirror-request";
+                } else if (it.kind == Item::HOLDWAIT) {
                         tag = "C14";
                         rule = "wrong-result-code-after-release";
                 } else if (mid && nlish) {
@@ -557,6 +566,7 @@ void Monitor::on_service_end(int status)
                         st.events_finished++;
                 }
                 popped_certain = popped_possible = accepted;
+                ev_quiet = true;
                 last_svc_ok = true;
                 stimulus_since_ok = false;
                 compare_vars(true);
@@ -612,6 +622,7 @@ void Monitor::on_trigger(int cmd, int type, int status, int full_before)
                 return;
         }
         st.events_accepted++;
+        ev_quiet = false;
         std::vector<Item> items = simulate_event(m, cmd, type);
         EvRec r;
         r.cmd = cmd;
@@ -794,6 +805,7 @@ void Monitor::on_fresh()
         in_list = false;
         last_svc_ok = false;
         stimulus_since_ok = true;
+        ev_quiet = true;
 }
 
 void Monitor::finish(bool drained)
